@@ -249,12 +249,13 @@ impl Parser {
             // Token::Or => Some((1, 2)),
             // Token::And => Some((3, 4)),
             // ´´´
-            // By giving here the NOT operator a precedence of three, we are making sur it binds tighter than  AND & OR,
-            // but looselier than +, - , * an unary operators.
+            // NOT binds tighter than AND & OR but looser than comparisons, +, -, * and unary operators:
+            // its operand must stop at AND (left power 3) and go on through comparisons (left power 5).
             // This way, the expression: [NOT a AND b OR c], will be parsed as: (OR (AND (NOT a) b) c)
+            // (with a minimum power of 3 the operand swallowed the AND: NOT (a AND b)).
             Token::Not => {
                 self.next_token();
-                let expr = self.parse_expr_bp(3)?; // NOT precedence
+                let expr = self.parse_expr_bp(5)?; // NOT precedence
                 Ok(Expr::UnaryOp {
                     op: UnaryOperator::Not,
                     expr: Box::new(expr),
